@@ -146,7 +146,7 @@ func (c06) Gen(r *core.Rand, tier string) interface{} {
 	if r.Chance(1, 12) {
 		s.Wire.CutAt = r.Range(1, ((plen+183)/184+s.Wire.Foreign)*188)
 	}
-	s.TH = [4]int{r.Intn(256), r.Intn(2), r.Intn(2), r.Intn(1024)}
+	s.TH = [4]int{r.Intn(256), r.Intn(2), r.Intn(2), r.Pick(r.Intn(1024), r.Intn(4096), 1021, 1023, 1024, 4093, 4095)}
 	return s
 }
 
@@ -392,7 +392,7 @@ func (c06) Exec(script interface{}, c *core.Ctx) {
 	}
 	// table header round trip and pointer field constructor
 	{
-		th := psi.TableHeader{TableID: uint8(s.TH[0]), SectionSyntaxIndicator: s.TH[1] != 0, PrivateIndicator: s.TH[2] != 0, SectionLength: uint16(s.TH[3] & 0x3ff)}
+		th := psi.TableHeader{TableID: uint8(s.TH[0]), SectionSyntaxIndicator: s.TH[1] != 0, PrivateIndicator: s.TH[2] != 0, SectionLength: uint16(s.TH[3] & 0xfff)} // section_length is a 12-bit field
 		var back psi.TableHeader
 		var err error
 		var enc []byte
